@@ -47,6 +47,11 @@ def main(argv=None):
         print(f"replay of {args.replay}: property held")
         return 0
 
+    import tempfile, shutil, atexit
+    base = tempfile.mkdtemp(prefix=f"vf-run-{pid}-")
+    os.environ["VERIF_TMP"] = base
+    atexit.register(shutil.rmtree, base, True)
+
     t0 = time.time()
     viols = []
     errors = []
